@@ -5,7 +5,8 @@ from props.base import *
 PID = "C07"
 RULE = ("f.substitute(x, g): every (f, g, x) over <=2 variables, sampled over 3 variables (all 256x256x3 in the thorough tier), random f, g over "
         "4..7 variables with x inside/outside either support and variables of g above/below x that f does not mention. "
-        "relation: canon(impl)=canon(model), the model being (g /\\ f[x:=1]) \\/ (~g /\\ f[x:=0]); a panic on operands over the same variable "
+        "relation: canon(impl)=canon(model), the model being the step-faithful model of the library's own algorithm (clone / safe / proxy-variable paths), "
+        "cross-checked on every step against the compositional (g /\\ f[x:=1]) \\/ (~g /\\ f[x:=0]) (proved equal); a panic on operands over the same variable "
         "count is a violation. non-trivial = x in support(f), g non-constant; distinct by sha256 of the step")
 
 
